@@ -18,8 +18,8 @@ class StructT(Ty):
     __slots__ = ('name',)
     def __init__(s, name): s.name = name
 class LitStructT(Ty):
-    __slots__ = ('els',)
-    def __init__(s, els): s.els = els
+    __slots__ = ('els', 'packed')
+    def __init__(s, els, packed=False): s.els = els; s.packed = packed
 class FnT(Ty):
     __slots__ = ('ret', 'args', 'va')
     def __init__(s, ret, args, va=False): s.ret = ret; s.args = args; s.va = va
@@ -57,16 +57,16 @@ class Module:
         if isinstance(t, StructT): return s.layout(t.name)[2]
         if isinstance(t, LitStructT): return s.lit_layout(t)[2]
         raise Exception('alignof %r' % t)
-    def _lay_of(s, els):
+    def _lay_of(s, els, packed=False):
         off = 0; offs = []; al = 1
         for t in els:
-            a = s.alignof(t); al = max(al, a); off = (off + a - 1) // a * a; offs.append(off); off += s.sizeof(t)
+            a = 1 if packed else s.alignof(t); al = max(al, a); off = (off + a - 1) // a * a; offs.append(off); off += s.sizeof(t)
         off = (off + al - 1) // al * al
         return (off, offs, al)
     def layout(s, name):
         if name not in s._lay: s._lay[name] = s._lay_of(s.structs[name])
         return s._lay[name]
-    def lit_layout(s, t): return s._lay_of(t.els)
+    def lit_layout(s, t): return s._lay_of(t.els, t.packed)
 
 class P:
     def __init__(s, t, mod): s.t = t; s.i = 0; s.mod = mod
@@ -95,11 +95,14 @@ class P:
             ty = StructT(t[1:])
         elif t == '[':
             n = int(s.next()); s.expect('x'); el = s.type(); s.expect(']'); ty = ArrT(n, el)
-        elif t == '{':
+        elif t == '{' or (t == '<' and s.peek() == '{'):
+            packed = t == '<'
+            if packed: s.next()
             els = []
             while not s.eat('}'):
                 els.append(s.type()); s.eat(',')
-            ty = LitStructT(els)
+            if packed: s.expect('>')
+            ty = LitStructT(els, packed)
         else: raise Exception('type? %s at %s' % (t, s.t[max(0, s.i - 6):s.i + 4]))
         while True:
             if s.eat('*'): ty = PtrT(ty)
